@@ -190,6 +190,25 @@ pub fn record_format(seed: u64, thorough: bool, path: &str) -> Value {
         out.push(ev("wmcore", &to_bytes(&WMCore::from(vals.clone())), json!({"vals": vals})));
         files += 6;
     }
+    // vectors that went through shrinking histories: the unused bits of the last element must still be 0
+    for rep in 0..(6 * reps) {
+        use simple_sds::ops::{Pop, Resize};
+        use simple_sds::raw_vector::{PopRaw, PushRaw};
+        let w = *rng.pick(&[1usize, 5, 13, 21, 29]);
+        let n = rng.range(6, 40);
+        let mut v = IntVector::with_len(n, w, (1u64 << w) - 1).unwrap();
+        for _ in 0..rng.range(1, 4) { v.pop(); }
+        if rep % 2 == 0 { let keep = v.len() / 2 + 1; v.resize(keep, 0); }
+        let items: Vec<u64> = v.iter().collect();
+        out.push(ev("int", &to_bytes(&v), json!({"w": w, "items": items})));
+        let mut raw = RawVector::with_len(rng.range(65, 200), true);
+        for _ in 0..rng.range(1, 3) { unsafe { raw.pop_int(rng.range(1, 64)); } }
+        if rep % 3 == 0 { raw = raw.complement(); raw.push_bit(true); unsafe { raw.pop_int(1); } }
+        if rep % 3 == 1 { let l = raw.len(); raw.resize(l - rng.range(1, 60), false); }
+        let ones: Vec<usize> = (0..raw.len()).filter(|i| raw.bit(*i)).collect();
+        out.push(ev("raw", &to_bytes(&raw), json!({"len": raw.len(), "ones": ones})));
+        files += 2;
+    }
     // skip_option / absent_option on the optional support structures of a bitvector
     for (len, runs) in contents.iter().take(10) {
         let mut b = bv::plain_raw(*len, runs);
